@@ -324,6 +324,7 @@ func (r *Run) execSelect(g *Goroutine, fr *Frame, x *ssa.Select) {
 	if len(ready) > 0 {
 		pick := ready[0]
 		if len(ready) > 1 {
+			r.res.SelectChoices++
 			d := r.decide(func() []int64 {
 				as := make([]int64, len(ready))
 				for i := range as {
